@@ -1644,7 +1644,7 @@ fn build_traj(which: u8, r: &Raw) -> TrajCase {
     TrajCase { class: TRAJ_CLASSES[class].to_string(), opt: build_opt(which, r, step), obj, x0, kmax: r.kmax }
 }
 
-const EARLY_CLASSES: [&str; 6] = ["osc/sgd-flip", "osc/adam-flip", "osc/sgd-offset", "converging", "eps-gradient", "zero-gradient-coordinates"];
+const EARLY_CLASSES: [&str; 7] = ["osc/sgd-flip", "osc/adam-flip", "osc/sgd-offset", "converging", "eps-gradient", "zero-gradient-coordinates", "momentum/lands-on-minimiser"];
 
 fn build_early(r: &Raw) -> TrajCase {
     let mut pool = Pool::new(&r.pool);
@@ -1674,6 +1674,21 @@ fn build_early(r: &Raw) -> TrajCase {
             obj = Obj::Quad { q, b };
             opt = Opt::Sgd { step: eta, momentum: 0.0, nesterov: r.eps };
             x0 = (0..n).map(|_| pool.f(8.0)).collect::<Vec<f64>>();
+        }
+        6 => {
+            // step·λ = 1 on every coordinate and dyadic data: the first step lands on the minimiser exactly, the
+            // gradient there is exactly zero in every component — but the velocity is not, so with momentum the
+            // parameters keep moving (heavy ball: x2 = a + μ·(a − x0)); "gradient is zero" is not "stopped changing"
+            let mut q = vec![0.0; n * n];
+            for i in 0..n {
+                q[i * n + i] = 1.0 / eta;
+            }
+            let a: Vec<f64> = (0..n).map(|_| pool.f(8.0)).collect();
+            let b: Vec<f64> = a.iter().map(|v| v / eta).collect();
+            obj = Obj::Quad { q, b };
+            let mu = [0.5, 0.25, 0.75, 0.9][(r.mom as usize / 4) % 4];
+            opt = Opt::Sgd { step: eta, momentum: mu, nesterov: r.eps };
+            x0 = a.iter().map(|v| v + pool.nz(8.0)).collect::<Vec<f64>>();
         }
         1 => {
             // β1 = β2 = ½, gradient 2^(39−j) ≫ ε/ε_mach: the first Adam step is exactly −step·sign(g), so the
@@ -1809,7 +1824,14 @@ Distinct by the hash of the whole serialised case."
     ctx.run_prop_par("sgd/momentum/trajectory", ctx.scale(160, 1500), t, || traj_strategy(2, kmax), check_sgd_momentum);
     ctx.run_prop_par("sgd/nesterov/trajectory", ctx.scale(256, 2000), t, || traj_strategy(3, kmax), check_sgd_nesterov);
     ctx.run_prop_par("determinism", ctx.scale(384, 4000), t, || determinism_strategy(kmax), check_determinism);
+    if ctx.quick() {
+        // a few budgets beyond 200 in the quick tier as well (400..=800, half of them with beta1 >= 0.95, where the
+        // bias correction 1 - beta1^t is still far from 1 after hundreds of steps)
+        ctx.run_prop_par("adam/trajectory", 16, t, || traj_strategy(0, 800).prop_map(|c| slow_decay(long_case(c), 400, 800)), check_adam);
+        ctx.run_prop_par("sgd/momentum/trajectory", 8, t, || traj_strategy(2, 800).prop_map(|c| slow_decay(long_case(c), 400, 800)), check_sgd_momentum);
+    }
     if !ctx.quick() {
+        ctx.run_prop_par("adam/trajectory", 64, t, || traj_strategy(0, 2000).prop_map(|c| slow_decay(long_case(c), 1000, 2000)), check_adam);
         // long budgets on a subset: every k in 1..=2000
         ctx.run_prop_par("adam/trajectory", 64, t, || traj_strategy(0, 2000).prop_map(long_case), check_adam);
         ctx.run_prop_par("sgd/nesterov/trajectory", 64, t, || traj_strategy(3, 2000).prop_map(long_case), check_sgd_nesterov);
@@ -1817,6 +1839,18 @@ Distinct by the hash of the whole serialised case."
         ctx.run_prop_par("sgd/plain/trajectory", 32, t, || traj_strategy(1, 2000).prop_map(long_case), check_sgd_plain);
     }
     run_lm(ctx);
+}
+
+/// budget mapped into [lo, hi]; every other case gets a first-moment decay close to 1
+fn slow_decay(mut c: TrajCase, lo: usize, hi: usize) -> TrajCase {
+    let k = c.kmax;
+    c.kmax = lo + k % (hi - lo + 1);
+    if k % 2 == 0 {
+        if let Opt::Adam { beta1, .. } = &mut c.opt {
+            *beta1 = [0.95, 0.99, 0.999, 0.97][(k / 2) % 4];
+        }
+    }
+    c
 }
 
 /// thorough tier: budgets up to 2000 on cheap objectives (at most 3 dimensions / 6 data points)
